@@ -166,6 +166,7 @@ class Table:
         self.log = []
         self.max_alive = 0
         self.hook = None
+        self.stubborn = False     # children ignore every signal but SIGKILL
 
     def spawn(self):
         self.next += 1
@@ -201,6 +202,8 @@ def with_table(fn):
         if pid not in t.alive:
             raise OSError(3, "no such process")
         t.log.append(("kill", pid, sig))
+        if t.stubborn and int(sig) != 9:
+            return
         t.alive.discard(pid)
     tricks.subprocess.Popen = FakePopen
     tricks.kill_process = kill
@@ -210,8 +213,9 @@ def with_table(fn):
         tricks.subprocess.Popen, tricks.kill_process = saved
 
 
-def trick_sequential(script, self_exit, debounce):
+def trick_sequential(script, self_exit, debounce, stubborn=False):
     def body(t):
+        t.stubborn = stubborn
         tr = tricks.AutoRestartTrick(["cmd"], restart_on_command_exit=self_exit, debounce_interval_seconds=0.02 if debounce else 0, kill_after=0.1)
         out = []
         tr.start()
@@ -415,7 +419,7 @@ for w, dr in itertools.product((False, True), repeat=2):
 def main():
     if REPLAY is not None:
         c = REPLAY
-        pr = SCEN[c["name"]]() if c["kind"] == "scen" else trick_sequential(c["script"], c["self_exit"], c["debounce"])
+        pr = SCEN[c["name"]]() if c["kind"] == "scen" else trick_sequential(c["script"], c["self_exit"], c["debounce"], c.get("stubborn", False))
         replay_result(bool(pr), pr[:2])
     bat = Battery({"debouncer": [k for k in SCEN if k.startswith("deb")], "tricks": "event/ignored-event/child-exits/stop scripts of length 3 x restart_on_command_exit x debounce, simulated process table", "interleaving": "stop() during an in-flight restart"})
     for name, fn in SCEN.items():
@@ -431,6 +435,13 @@ def main():
             pr = trick_sequential(list(script), self_exit, debounce)
             if pr:
                 bat.fail("C18.auto-restart", pr[0], {"kind": "seq", "script": list(script), "self_exit": self_exit, "debounce": debounce, "problems": pr[:2]}, "AutoRestartTrick")
+    # a child that ignores the stop signal: after kill_after it is killed for good - never two children, none left after stop()
+    for script in (["event", "stop"], ["event", "event"], ["stop"], ["event", "child-exits"]):
+        for self_exit in (False, True):
+            bat.case(("stubborn", tuple(script), self_exit))
+            pr = trick_sequential(list(script), self_exit, False, True)
+            if pr:
+                bat.fail("C18.auto-restart(child ignores the stop signal)", pr[0], {"kind": "seq", "script": list(script), "self_exit": self_exit, "debounce": False, "stubborn": True, "problems": pr[:2]}, "AutoRestartTrick._stop_process")
     bat.finish()
 
 
